@@ -736,8 +736,8 @@ func adjacentDedupe(v ssa.Value) *dedupeLoop {
 		}
 		header := ph.Block()
 		stopAtHeader := func(i ssa.Instruction) bool { return i.Block() == header }
-		skips := nil == (reachQ{From: Loc{b.Succs[0], -1}, Target: func(i ssa.Instruction) bool { return i == ssa.Instruction(app) }, Block: stopAtHeader}).run()
-		keeps := nil != (reachQ{From: Loc{b.Succs[1], -1}, Target: func(i ssa.Instruction) bool { return i == ssa.Instruction(app) }, Block: stopAtHeader}).run()
+		skips := nil == (reachQ{From: edgeLoc(b, 0), Target: func(i ssa.Instruction) bool { return i == ssa.Instruction(app) }, Block: stopAtHeader}).run()
+		keeps := nil != (reachQ{From: edgeLoc(b, 1), Target: func(i ssa.Instruction) bool { return i == ssa.Instruction(app) }, Block: stopAtHeader}).run()
 		if skips && keeps {
 			guarded = true
 		}
